@@ -69,6 +69,9 @@ Proof.
       by (destruct (pc s); try done; by injection Hs as <-).
     unfold frame_ok; cbn. split_and!; auto. intros x. rewrite elem_snoc. intros [?|?]; [by left|done].
   - injection Hs as <-. unfold frame_ok; cbn; split_and!; auto.
+  - destruct (is_other (cur s)); [|done]. destruct (pc s); repeat case_match; try done; injection Hs as <-; unfold frame_ok; cbn; split_and!; auto.
+  - repeat case_match; try done; injection Hs as <-. destruct w; unfold frame_ok; cbn; split_and!; auto.
+  - repeat case_match; try done; injection Hs as <-. unfold frame_ok; cbn; split_and!; auto.
 Qed.
 
 Lemma frame_ok_refl s : frame_ok s s.
